@@ -159,6 +159,16 @@ fn item(cfg: &Config, idx: u64, out: &mut Vec<u8>) {
                 out.extend_from_slice(b"c a comment line in between\n\n");
             }
         }
+        ParserId::Log => {
+            // comment lines, and (with ignore_unknown_lines) lines of solver statistics; shape 1:
+            // statistics only, so that nothing but ignored lines passes for a long time
+            let unknown = cfg.skip && (cfg.shape == 1 || r % 3 == 0);
+            out.extend_from_slice(if unknown { b"| restarts " } else { b"c " });
+            while out.len() + 1 < target {
+                out.push(b'0' + (mix(r, out.len() as u64) % 10) as u8);
+            }
+            out.push(b'\n');
+        }
         ParserId::Btor2 => {
             write!(out, "{} add 1 {} {}", idx + 10, r % 1000 + 1, r % 77 + 1).unwrap();
             if r & 1 == 0 {
@@ -269,6 +279,12 @@ impl Read for Stream {
                     self.idx += 1;
                     continue;
                 }
+                if self.idx == self.items && self.cfg.parser == ParserId::Log {
+                    self.cur = b"s SATISFIABLE\nv 1 -2 0\n".to_vec();
+                    self.pos = 0;
+                    self.idx += 1;
+                    continue;
+                }
                 if self.idx == self.items && self.cfg.shape == 1 && self.cfg.parser == ParserId::Btor2 {
                     // a final justice line that declares far more conditions than it has
                     self.cur = b"5 justice 60000000 3\n".to_vec();
@@ -341,7 +357,8 @@ pub fn check(cfg: &Config, obs: &mut Obs) -> CheckResult {
     let spec = Spec {
         parser: cfg.parser,
         lit: 3,
-        flag: cfg.skip && matches!(cfg.parser, ParserId::Aag | ParserId::Aig),
+        // skip mode of the AIGER section readers / ignore_unknown_lines of the solver log
+        flag: cfg.skip && matches!(cfg.parser, ParserId::Aag | ParserId::Aig | ParserId::Log),
     };
     let measured = alloc::installed();
     let (src, log, items) = Stream::new(cfg.clone());
@@ -359,12 +376,14 @@ pub fn check(cfg: &Config, obs: &mut Obs) -> CheckResult {
         obs.nontrivial();
         obs.class("n>=64xbound");
     }
+    obs.class_if(cfg.chunk.map_or(false, |c| c > 32 << 20) && delivered > 64 << 20, "cursor>64MiB-into-the-buffer");
     let p = cfg.parser.name();
     let malformed_tail = (matches!(cfg.parser, ParserId::Btor2 | ParserId::Aig) && cfg.shape == 1)
         || (cfg.parser == ParserId::Aig && cfg.shape == 2);
     obs.class_if(cfg.pre_chunk.is_some(), "chunk-size-configured-twice");
     obs.class_if(cfg.bufreader.is_some(), "from_buf_reader");
-    obs.class_if(spec.flag, "aiger-sections-skipped");
+    obs.class_if(spec.flag && cfg.parser != ParserId::Log, "aiger-sections-skipped");
+    obs.class_if(spec.flag && cfg.parser == ParserId::Log, "log-unknown-lines-ignored");
     obs.class_if(malformed_tail, "malformed-tail");
     if malformed_tail && !matches!(t.fin, Final::Syntax { .. }) {
         fail!(
@@ -385,6 +404,7 @@ pub fn check(cfg: &Config, obs: &mut Obs) -> CheckResult {
         );
     }
     let expect_items = match (cfg.parser.is_dimacs(), cfg.shape) {
+        _ if cfg.parser == ParserId::Log => 1, // the log as a whole
         (true, 1) => 101, // header + the declared 100 clauses
         (true, 2) => 1,   // the one long clause
         (true, 3) => items - 1, // the first line is a comment
@@ -447,6 +467,19 @@ fn check_direct(cfg: &Config, obs: &mut Obs) -> CheckResult {
             reader.advance(n);
             advanced += n as u64;
         },
+        4 => {
+            // a short input and one request for far more than there is (an untrusted length
+            // field): what is held depends on the data present, not on the number asked for
+            let want = [1usize << 20, 64 << 20, 256 << 20, 1 << 40][(cfg.seed % 4) as usize];
+            loop {
+                let got = reader.request(want).len();
+                if got == 0 {
+                    break;
+                }
+                reader.advance(got);
+                advanced += got as u64;
+            }
+        }
         _ => loop {
             let mut off = 0;
             let end = loop {
@@ -468,11 +501,13 @@ fn check_direct(cfg: &Config, obs: &mut Obs) -> CheckResult {
     drop(reader);
     let peak = w.peak();
     let delivered = log.borrow().delivered as u64;
-    let b = bound(cfg);
+    // mode 4 buffers the whole (short) input on purpose: the bound is in terms of the data that
+    // exists (growth by doubling, old and new buffer alive during a move), not of the length asked for
+    let b = bound(cfg) + if cfg.direct == 4 { 4 * delivered as usize } else { 0 };
     obs.class(format!("direct/{}", cfg.direct));
     obs.class(format!("chunk/{}", cfg.chunk.map_or("default".to_string(), |c| c.to_string())));
     obs.class(format!("read/{:?}", cfg.read));
-    if delivered >= 64 * b as u64 && items > 600 {
+    if (delivered >= 64 * b as u64 && items > 600) || cfg.direct == 4 {
         obs.nontrivial();
         obs.class("n>=64xbound");
     }
@@ -512,11 +547,14 @@ fn config_strategy(quick: bool) -> impl Strategy<Value = Config> {
         ParserId::Btor2,
         ParserId::Aag,
         ParserId::Aig,
+        ParserId::Log,
     ];
+    // (40 MiB: the cursor gets 80 MiB into the buffer before the first realign; the stream is
+    // 100 MiB then, whatever the tier)
     let chunks = if quick {
-        vec![Some(1usize), Some(7), Some(64), Some(4096), None]
+        vec![Some(1usize), Some(7), Some(64), Some(4096), None, Some(1), Some(64), None, Some(40 << 20)]
     } else {
-        vec![Some(1usize), Some(7), Some(64), Some(4096), None, Some(1 << 20)]
+        vec![Some(1usize), Some(7), Some(64), Some(4096), None, Some(1 << 20), Some(1), Some(64), None, Some(40 << 20)]
     };
     (
         proptest::sample::select(parsers),
@@ -532,7 +570,7 @@ fn config_strategy(quick: bool) -> impl Strategy<Value = Config> {
         any::<u64>(),
         prop_oneof![2 => Just(0u8), 1 => Just(1u8), 1 => Just(2u8), 1 => Just(3u8)],
         any::<bool>(),
-        prop_oneof![5 => Just(0u8), 1 => 1u8..=3],
+        prop_oneof![10 => Just(0u8), 2 => 1u8..=3, 1 => Just(4u8)],
         prop_oneof![4 => Just(None), 1 => proptest::sample::select(vec![1usize << 30, 1 << 20, 3, 100_000]).prop_map(Some)],
         prop_oneof![5 => Just(None), 1 => proptest::sample::select(vec![0usize, 64, 8192, 4 << 20]).prop_map(Some)],
     )
@@ -546,15 +584,18 @@ fn config_strategy(quick: bool) -> impl Strategy<Value = Config> {
                 max_item,
                 seed,
                 n: 0,
-                skip: skip && matches!(parser, ParserId::Aag | ParserId::Aig),
+                skip: (skip || (parser == ParserId::Log && shape == 1)) && matches!(parser, ParserId::Aag | ParserId::Aig | ParserId::Log),
                 direct,
                 pre_chunk: if chunk.is_some() { pre_chunk } else { None },
                 bufreader,
                 shape: match (parser, shape) {
                     _ if direct != 0 => 0,
+                    (ParserId::Log, 1) => 1,
+                    (ParserId::Log, _) => 0,
                     (ParserId::Btor2, 1) => 1,
                     (ParserId::Aig, 1) => 1,
                     (ParserId::Aig, 2) => 2,
+
                     (ParserId::Cnf, s) => s,
                     (p, 3) if p.is_dimacs() => 0,
                     (p, s) if p.is_dimacs() => s,
@@ -562,8 +603,15 @@ fn config_strategy(quick: bool) -> impl Strategy<Value = Config> {
                 },
             };
             let mut n = 64 * bound(&cfg) as u64 + (1 << 20);
+            if direct == 4 {
+                // (everything the source has is buffered at once here: keep it below the bound)
+                n = 40 << 10;
+            }
             if quick {
                 n = n.min(48 << 20);
+            }
+            if chunk == Some(40 << 20) && direct != 4 {
+                n = 100 << 20;
             }
             // byte-wise delivery is slow; keep it within budget
             if read == ReadSize::One && quick {
